@@ -203,6 +203,65 @@ let gen_kernels w op args rest =
   | "count_ones", [ "ok"; t ] when large (a 0) -> int_of_nat (count_ones_large_gen ww (ws (a 0))) = Zar.to_int (usz t)
   | _ -> true
 
+
+(* ---------------------------------------------------------------- round 5: the STRAIGHT-LINE bodies REGENERATED from the
+   source (coq/gen/BitsBodiesGen.v: shl_dword .. shr_large_ref, set_bit / clear_bit / clear_high_bits / split_bits,
+   next_power_of_two(_large), Repr::ones - casts and machine shifts with their width, usize of 64 bits on both builds) run on
+   the typed view of the operand: the answer (and, at the word size of the build, the layout) must be reproduced by them too *)
+let uw64 = Zar.of_int 64
+let gen_bodies w op args rest lays =
+  let ww = wz w in
+  let a i = z (List.nth args i) in
+  let n i = usz (List.nth args i) in
+  let lay_ok rs = match lays with
+    | LBig (w', _, _, _) :: _ when w' = w && List.length lays = List.length rs ->
+        List.for_all2 (fun l r -> match l with LBig (_, i, l, c) -> lay_matches w r (i, l, c) | LPrim _ -> true) lays rs
+    | _ -> true in
+  let is_in l = List.mem op l in
+  let shl_ops = [ "shl"; "shl_r"; "shl_pr"; "shl_rpr"; "shl_assign"; "shl_assign_pr"; "ushl"; "ushl_r"; "ushl_pr"; "ushl_rpr"; "ushl_assign"; "ushl_assign_pr" ] in
+  let shr_val = [ "shr"; "shr_pr"; "shr_assign"; "shr_assign_pr"; "ushr"; "ushr_pr"; "ushr_assign"; "ushr_assign_pr" ] in
+  let shr_ref = [ "shr_r"; "shr_rpr"; "ushr_r"; "ushr_rpr" ] in
+  let shl_ref = [ "shl_r"; "shl_rpr"; "ushl_r"; "ushl_rpr" ] in
+  if is_in shl_ops then begin
+    let x = a 0 in let m = Zar.abs x in
+    if Zar.sign x = 0 || huge (n 1) then true else
+    let rs = (match br w m with
+      | BSmall d -> [ shl_dword_gen ww uw64 d (n 1) ]
+      | BLarge b ->
+          if is_in shl_ref then [ shl_large_ref_gen ww uw64 b (n 1) ]
+          else [ shl_large_gen ww uw64 Zar.zero b (n 1); shl_large_gen ww uw64 (Zar.of_int max_int) b (n 1) ]) in
+    List.for_all (fun r -> rest = [ "ok"; hx (if Zar.sign x < 0 then Zar.neg (bv w r) else bv w r) ] && lay_ok [ r ]) rs
+  end else if is_in shr_val || is_in shr_ref then begin
+    let x = a 0 in let m = Zar.abs x in
+    let r = (match br w m with
+      | BSmall d -> shr_dword_gen ww uw64 d (n 1)
+      | BLarge b -> if is_in shr_ref then shr_large_ref_gen ww uw64 b (n 1) else shr_large_gen ww uw64 b (n 1)) in
+    if Zar.sign x >= 0 then rest = [ "ok"; hx (bv w r) ] && lay_ok [ r ]
+    else
+      let b = ref_are_low_bits_nonzero_gen ww uw64 (br w m) (n 1) in
+      rest = [ "ok"; hx (Zar.sub (Zar.neg (bv w r)) (if b then Zar.one else Zar.zero)) ]
+  end else
+  match op with
+  | "set_bit" when not (huge (n 1)) -> let r = typed_set_bit_gen ww uw64 (br w (a 0)) (n 1) in rest = [ "ok"; hx (bv w r) ] && lay_ok [ r ]
+  | "clear_bit" -> let r = typed_clear_bit_gen ww uw64 (br w (a 0)) (n 1) in rest = [ "ok"; hx (bv w r) ] && lay_ok [ r ]
+  | "clear_high_bits" -> let r = typed_clear_high_bits_gen ww uw64 (br w (a 0)) (n 1) in rest = [ "ok"; hx (bv w r) ] && lay_ok [ r ]
+  | "next_pow2" -> let r = typed_next_power_of_two_gen ww uw64 (br w (a 0)) in rest = [ "ok"; hx (bv w r) ] && lay_ok [ r ]
+  | "split_bits" ->
+      let (lo, hi) = typed_split_bits_gen ww uw64 (br w (a 0)) (n 1) in
+      rest = [ "ok"; hx (bv w lo); hx (bv w hi) ] && lay_ok [ lo; hi ]
+  | "ubit" -> rest = [ "ok"; b2s (ref_bit_gen ww uw64 (br w (a 0)) (n 1)) ]
+  | "bit" when Zar.sign (a 0) > 0 -> rest = [ "ok"; b2s (ref_bit_gen ww uw64 (br w (a 0)) (n 1)) ]
+  | "bit_len" | "ubit_len" -> rest = [ "ok"; hx (ref_bit_len_gen ww uw64 (br w (Zar.abs (a 0)))) ]
+  | "utz" | "tz" -> rest = "ok" :: split_ws (hopt (ref_trailing_zeros_gen ww uw64 (br w (Zar.abs (a 0)))))
+  | "uto" -> rest = [ "ok"; "some"; hx (ref_trailing_ones_gen ww uw64 (br w (a 0))) ]
+  | "to" when Zar.sign (a 0) >= 0 -> rest = [ "ok"; "some"; hx (ref_trailing_ones_gen ww uw64 (br w (a 0))) ]
+  | "to" -> rest = "ok" :: split_ws (hopt (ref_trailing_ones_neg_gen ww uw64 (br w (Zar.abs (a 0)))))
+  | "count_ones" -> rest = [ "ok"; hx (ref_count_ones_gen ww uw64 (br w (a 0))) ]
+  | "count_zeros" -> rest = "ok" :: split_ws (hopt (ref_count_zeros_gen ww uw64 (br w (a 0))))
+  | "is_pow2" -> rest = [ "ok"; b2s (ref_is_power_of_two_gen ww uw64 (br w (a 0))) ]
+  | "ones" when not (huge (n 0)) -> let r = repr_ones_gen ww uw64 (n 0) in rest = [ "ok"; hx (bv w r); "1" ] && lay_ok [ r ]
+  | _ -> true
+
 let judge_big op args got =
   let lays, rest = split_layout got in
   match big_model 64 op args with
@@ -214,7 +273,7 @@ let judge_big op args got =
         match big_model w op args with
         | Some (_, rs) -> List.for_all (fun r -> match mres_value w r with Some v -> rest = [ "ok"; hx v ] | None -> false) rs
         | None -> false in
-      let same = ref (List.for_all value_ok all_w && List.for_all (fun w -> gen_kernels w op args rest) all_w) in
+      let same = ref (List.for_all value_ok all_w && List.for_all (fun w -> gen_kernels w op args rest && gen_bodies w op args rest lays) all_w) in
       let verdict_lay = ref None in
       (match lays with
        | [ LBig (w, i, l, c) ] ->
@@ -247,7 +306,7 @@ let judge op args got =
   let n i = usz (List.nth args i) in
   let lays, rest = split_layout got in
   let toks want = "ok" :: want in
-  let fid_all f = fid_all (fun w -> f w && gen_kernels w op args rest) in
+  let fid_all f = fid_all (fun w -> f w && gen_kernels w op args rest && gen_bodies w op args rest lays) in
   match op with
   | "uand_p" | "uor_p" | "uxor_p" | "iand_pu" | "ior_pu" | "ixor_pu" | "iand_pi" | "ior_pi" | "ixor_pi" ->
       let x = a 1 and p = a 2 in
@@ -290,7 +349,8 @@ let judge op args got =
       (match lays with
        | [ LBig (w, i0, l0, c0); LBig (_, i1, l1, c1) ] ->
            let (alo, ahi) = repr_split_bits (wz w) (br w (a 0)) (n 1) in
-           let same = List.for_all f all_w && lay_matches w alo (i0, l0, c0) && lay_matches w ahi (i1, l1, c1) in
+           let same = List.for_all f all_w && lay_matches w alo (i0, l0, c0) && lay_matches w ahi (i1, l1, c1)
+                      && List.for_all (fun w -> gen_bodies w op args rest lays) all_w in
            if lay_matches w (br w lo) (i0, l0, c0) && lay_matches w (br w hi) (i1, l1, c1)
            then expect ~extra:("asis=" ^ if same then "same" else "diff") want rest
            else fail (want ^ " " ^ lay_tok w (br w lo) ^ " " ^ lay_tok w (br w hi))
@@ -302,7 +362,8 @@ let judge op args got =
       let f w = rest = toks [ hx (bv w (repr_ones (wz w) (n 0))); "1" ] in
       (match lays with
        | [ LBig (w, i, l, c) ] ->
-           let same = List.for_all f all_w && lay_matches w (repr_ones (wz w) (n 0)) (i, l, c) in
+           let same = List.for_all f all_w && lay_matches w (repr_ones (wz w) (n 0)) (i, l, c)
+                      && List.for_all (fun w -> gen_bodies w op args rest lays) all_w in
            if lay_matches w (br w (ones_spec (n 0))) (i, l, c)
            then expect ~extra:("asis=" ^ if same then "same" else "diff") want rest
            else fail (want ^ " " ^ lay_tok w (br w (ones_spec (n 0))))
